@@ -65,24 +65,24 @@ CHECKS = {
         design="DESIGN.md §4 C07",
     ),
     "C13": dict(
-        rules="R13.1-R13.15",
-        what="blockers never reach the ignore logic; suppressed-by-ignore implies recorded-as-used, only for enabled codes, and nothing else records; decision order of is_error_code_enabled (explicit disable, explicit enable, parent disabled); who may append to the error map; exit status truth table over (message, non-note, blockers, install override) and its data-flow to sys.exit; generators of diagnostics that bypass is_error_code_enabled are guarded by their own code not being disabled (truth table over the guard's atoms); the only-once slot is claimed only by recorded messages; notes next to coded errors carry a code; the ErrorWatcher stack sees every error before any code/ignore decision; the line spans that decide where an ignore has effect and which ignores are exempt from the unused report include the last line of the node (R13.15)",
+        rules="R13.1-R13.16",
+        what="blockers never reach the ignore logic; suppressed-by-ignore implies recorded-as-used, only for enabled codes, and nothing else records; decision order of is_error_code_enabled (explicit disable, explicit enable, parent disabled); who may append to the error map; exit status truth table over (message, non-note, blockers, install override) and its data-flow to sys.exit; generators of diagnostics that bypass is_error_code_enabled are guarded by their own code not being disabled (truth table over the guard's atoms); the only-once slot is claimed only by recorded messages; notes next to coded errors carry a code; the ErrorWatcher stack sees every error before any code/ignore decision; the line spans that decide where an ignore has effect and which ignores are exempt from the unused report include the last line of the node (R13.15); the Options attributes Errors.is_error_code_enabled reads are part of the cache key (R13.16)",
         quant="programs x ignore placements x code selections",
         technique="CFG must-pass / reachability, guard chains, who-may-call, abstract evaluation of the exit-status assignments",
         note="Exactness of the delta for every program (origin spans, duplicate removal, note attachment) is value-level and not decided.",
         design="DESIGN.md §4 C13",
     ),
     "C08": dict(
-        rules="R08.1-R08.9",
-        what="every SubtypeContext flag, proper_subtype and state.strict_optional is a component of the subtype memo key; every context/global attribute read by the subtype visitor is keyed; lookups and records address the same entry with the same key and operands and the right polarity; hashed fields of every Type class are compared by __eq__; join/meet tuple siblings share their preamble; the subtype caches are written only by visit_instance and is_protocol_implementation, and in the latter only when the question-changing parameters (class_obj, skip) are excluded; protocol checks about a class object (TypeType item, instance type of a type object) pass class_obj=True; no positive cache entry is recorded while a co-inductive assumption is pending; hashed fields of types are assigned only on objects the same function created (type-checking-time modules); __eq__/__hash__ of Type subclasses compare components whole; no positive cache entry after a protocol assumption was relied on",
+        rules="R08.1-R08.10",
+        what="every SubtypeContext flag, proper_subtype and state.strict_optional is a component of the subtype memo key; every context/global attribute read by the subtype visitor is keyed; lookups and records address the same entry with the same key and operands and the right polarity; hashed fields of every Type class are compared by __eq__; join/meet tuple siblings share their preamble; the subtype caches are written only by visit_instance and is_protocol_implementation, and in the latter only when the question-changing parameters (class_obj, skip) are excluded; protocol checks about a class object (TypeType item, instance type of a type object) pass class_obj=True; no positive cache entry is recorded while a co-inductive assumption is pending; hashed fields of types are assigned only on objects the same function created (type-checking-time modules); __eq__/__hash__ of Type subclasses compare components whole; no positive cache entry after a protocol assumption was relied on; join/meet unpack a protocol to its __call__ type only under a guard that holds for ['__call__'] alone (evaluated over sample member lists, R08.10)",
         quant="pairs and triples of types",
         technique="who-may-read rule over subtypes.py against the key tuple; sibling cross-check of lookup/record and of __hash__/__eq__",
         note="Reflexivity, transitivity, join/meet bounds and union simplification are value-level laws and are not decided. The unkeyed reads of options.extra_checks/strict_concatenate are tabled as informational (no failing input).",
         design="DESIGN.md §4 C08",
     ),
     "C14": dict(
-        rules="R14.1-R14.12",
-        what="both front ends can construct the same set of AST node classes; per node class the semantic attributes set at construction agree (branch-sensitive tracking); Errors.report clamps end positions before building ErrorInfo; every statement list that becomes a block went through overload merging in both front ends and the native shortcut rests on a monotone function counter; parse-time message_registry diagnostics of the default parser are reported by the native parser too; the two parsers of Arg(...) constructors report each diagnostic under the same tests; folded f-string text lands in a kept node; a diagnostic both front ends report under a count test is reported for the same counts; the shared parameter-list helpers (sharedparse.*, nodes.check_param_names) are applied by both front ends; the conditional-overload helpers of both front ends thread the overload name through their recursion",
+        rules="R14.1-R14.13",
+        what="both front ends can construct the same set of AST node classes; per node class the semantic attributes set at construction agree (branch-sensitive tracking); Errors.report clamps end positions before building ErrorInfo; every statement list that becomes a block went through overload merging in both front ends and the native shortcut rests on a monotone function counter; parse-time message_registry diagnostics of the default parser are reported by the native parser too; the two parsers of Arg(...) constructors report each diagnostic under the same tests; folded f-string text lands in a kept node; a diagnostic both front ends report under a count test is reported for the same counts; the shared parameter-list helpers (sharedparse.*, nodes.check_param_names) are applied by both front ends; the conditional-overload helpers of both front ends thread the overload name through their recursion; nativeparse uses a node's position only after read_loc() has read it (CFG, R14.13)",
         quant="source files without type comments and their corruptions",
         technique="sibling cross-check of the two parser front ends over the resolved constructors; CFG must-pass for the position clamps",
         note="Equality of diagnostics between the parsers and columns lying inside the line are value-level and not decided.",
@@ -97,8 +97,8 @@ CHECKS = {
         design="DESIGN.md §4 C09",
     ),
     "C10": dict(
-        rules="R10.1-R10.7",
-        what="every iteration over a set in mypy/ is consumed order-insensitively (recognised structurally) or individually tabled; every hash()/id()/urandom/time call site classified; every process-global mutable binding reset on the build entry path or tabled; a once-per-build slot is claimed only by a message that is then recorded; a plugin given by path is not taken from sys.modules when that entry came from another file",
+        rules="R10.1-R10.8",
+        what="every iteration over a set in mypy/ is consumed order-insensitively (recognised structurally) or individually tabled; every hash()/id()/urandom/time call site classified; every process-global mutable binding reset on the build entry path or tabled; a once-per-build slot is claimed only by a message that is then recorded; a plugin given by path is not taken from sys.modules when that entry came from another file; next(iter(x)) is applied only to containers ordered by construction (R10.8)",
         quant="hash seeds, file orders and preceding builds",
         technique="type-directed lint over the resolved program (set-typed iterables by annotation-driven typing), effect classification of loop bodies, reaching reset analysis from build.build",
         note="Independence of the diagnostics from file argument order is not decided. tables/R10.1.json marks sites whose order-insensitivity could not be established by reading as (unproven); they are informational.",
@@ -113,8 +113,8 @@ CHECKS = {
         design="DESIGN.md §4 C11",
     ),
     "C20": dict(
-        rules="R20.1, R20.3-R20.17, R12.3, R20.2",
-        what="every loop that re-queues deferred work has a per-iteration counter compared with a constant bound that leaves the loop; type-checker deferral limited by pass_num < last_pass; partial arithmetic operators of the constant folders guarded against every failure precondition; placeholder-triggered deferrals are conditional on not being in the final iteration (defer() asserts it); constant-valued index variables are range-checked against len() of the subscripted sequence; the guard before `assert add_symbol(...)` in push_type_args recognises every type-parameter node kind and rejected parameters are not returned; no branch reports an `internal error` message as its planned outcome; a saved list index accounts for later deletions; pop() on a set built in the function is dominated by a non-emptiness test; names from configuration are not unchecked keys of the error-code registry; Instance asserts after is_subtype come after the TypeVar/union/Any cases",
+        rules="R20.1, R20.3-R20.18, R12.3, R20.2",
+        what="every loop that re-queues deferred work has a per-iteration counter compared with a constant bound that leaves the loop; type-checker deferral limited by pass_num < last_pass; partial arithmetic operators of the constant folders guarded against every failure precondition; placeholder-triggered deferrals are conditional on not being in the final iteration (defer() asserts it); constant-valued index variables are range-checked against len() of the subscripted sequence; the guard before `assert add_symbol(...)` in push_type_args recognises every type-parameter node kind and rejected parameters are not returned; no branch reports an `internal error` message as its planned outcome; a saved list index accounts for later deletions; pop() on a set built in the function is dominated by a non-emptiness test; names from configuration are not unchecked keys of the error-code registry; Instance asserts after is_subtype come after the TypeVar/union/Any cases; Instance assertions on the content of an UnpackType follow the TypeVarTuple case (sibling majority, one tabled site; R20.18)",
         quant="input programs",
         technique="CFG cycle/must-pass queries for counter-bounded fix-points; guard-chain analysis of partial operators",
         note="Absence of crashes for all inputs is not decided; R20.2 is an inventory (evidence only).",
